@@ -56,9 +56,19 @@ void ezc3d::ParametersNS::GroupNS::Group::write(std::fstream &f, int groupIdx, s
     f.write(reinterpret_cast<const char*>(&nCharToNext), 2*ezc3d::DATA_TYPE::BYTE);
     f.seekg(actualPos);
 
-    for (size_t i=0; i < nbParameters(); ++i)
+    for (size_t i=0; i < nbParameters(); ++i){
+        std::streampos previous(dataStartPosition);
         parameter(i).write(f, -groupIdx, dataStartPosition);
-
+        if (dataStartPosition != previous && name().compare("POINT")){
+            // Only POINT:DATA_START is the special parameter of the standard, elsewhere the value is kept
+            std::streampos actualPos(f.tellg());
+            f.seekg(dataStartPosition);
+            int value(parameter(i).valuesAsInt()[0]);
+            f.write(reinterpret_cast<const char*>(&value), ezc3d::DATA_TYPE::INT);
+            f.seekg(actualPos);
+            dataStartPosition = previous;
+        }
+    }
 }
 
 int ezc3d::ParametersNS::GroupNS::Group::read(ezc3d::c3d &file, int nbCharInName)
